@@ -66,6 +66,13 @@ var c19Alphabet = []c19Atom{
 	{ID: "value-cr", N: "x-v", V: "a\rb"},
 	{ID: "value-lf", N: "x-v", V: "a\nb"},
 	{ID: "value-nul", N: "x-v", V: "a\x00b"},
+	// pseudo-header values with forbidden bytes (the value rule covers every field, and these
+	// values are copied into Request.Host / Method / URL.Scheme / Proto)
+	{ID: "authority-crlf", N: ":authority", V: "h.example\r\nx-injected: 1"},
+	{ID: "method-nul", N: ":method", V: "G\x00T"},
+	{ID: "scheme-lf", N: ":scheme", V: "ht\ntps"},
+	{ID: "protocol-cr", N: ":protocol", V: "web\rtransport"},
+	{ID: "status-nul", N: ":status", V: "20\x000"},
 	// connection-specific fields
 	{ID: "connection", N: "connection", V: "close"},
 	{ID: "keep-alive", N: "keep-alive", V: "timeout=5"},
